@@ -4,9 +4,19 @@
 // dependencies) and prints one JSON document with the tables that coq/Gen/*.v are rendered from
 // by translate/gen_coq.py.  It translates TABLES (which guard protects which endpoint, which
 // permission constant a helper tests, which comparison an authority check makes), never
-// algorithms.  Every shape it does not recognise is emitted as a row of kind "Unrecognised"
-// carrying the source text, never dropped: the Coq obligations over the generated tables then
-// fail to check.
+// algorithms.
+//
+// Robustness to harmless rewrites: everything the tables contain is ALPHA-NORMALISED.  Local
+// variables are replaced by what they are bound to (`addr, err := sdk.AccAddressFromBech32(address)`
+// makes `addr` print as `sdk.AccAddressFromBech32(#2)`), parameters print by position (#i; the
+// context as `ctx`, a handler's request as `msg`), the receiver as `k`, protobuf getters as fields
+// (`msg.GetAuthority()` = `msg.Authority`).  Guards are recognised through these bindings, so
+// `if err := f(); err != nil`, `err := f()` followed by `if err != nil`, a comparison through a
+// freshly bound local, swapped operands of ==/!=, `!strings.EqualFold(a, b)`, and `else { if … }`
+// versus `else if …` all give the same row.  Error VALUES are not part of any row.
+//
+// Every shape it does not recognise is emitted as a row of kind "Unrecognised" carrying the
+// normalised text, never dropped: the Coq obligations over the generated tables then fail to check.
 //
 // usage: goextract <repo-root>   (JSON on stdout)
 package main
@@ -30,11 +40,11 @@ import (
 var fset = token.NewFileSet()
 var repoRoot string
 
-// ---------------------------------------------------------------- helpers
+// ---------------------------------------------------------------- generic helpers
 
 var wsRE = regexp.MustCompile(`\s+`)
 
-// src renders a node as one line of normalised source text.
+// src renders a node as one line of source text (used only as a fallback and for diagnostics).
 func src(n ast.Node) string {
 	if n == nil {
 		return ""
@@ -60,7 +70,6 @@ func parseFile(path string) (*ast.File, error) {
 	return parser.ParseFile(fset, path, nil, parser.SkipObjectResolution)
 }
 
-// rootIdent returns the identifier a selector / call / index chain starts from ("" if none).
 func rootIdent(e ast.Expr) string {
 	for {
 		switch x := e.(type) {
@@ -84,7 +93,6 @@ func rootIdent(e ast.Expr) string {
 	}
 }
 
-// selChain renders a.b.c (without the root) for a selector chain rooted at an identifier.
 func selChain(e ast.Expr) string {
 	var parts []string
 	for {
@@ -145,21 +153,6 @@ func isNil(e ast.Expr) bool {
 	return ok && id.Name == "nil"
 }
 
-// isErrReturn: the block is exactly `return nil, <non-nil>` (nres=2) or `return <non-nil>` (nres=1).
-func isErrReturn(b *ast.BlockStmt, nres int) bool {
-	if b == nil || len(b.List) != 1 {
-		return false
-	}
-	r, ok := b.List[0].(*ast.ReturnStmt)
-	if !ok || len(r.Results) != nres {
-		return false
-	}
-	if nres == 2 {
-		return isNil(r.Results[0]) && !isNil(r.Results[1])
-	}
-	return !isNil(r.Results[0])
-}
-
 func recvTypeName(d *ast.FuncDecl) string {
 	if d.Recv == nil || len(d.Recv.List) != 1 {
 		return ""
@@ -216,201 +209,6 @@ func handlerSig(d *ast.FuncDecl) (msgName, reqType string, ok bool) {
 	return msgName, reqType, true
 }
 
-// msgField: e is <msg>.<Field>; returns Field.
-func msgField(e ast.Expr, msg string) (string, bool) {
-	s, ok := e.(*ast.SelectorExpr)
-	if !ok {
-		return "", false
-	}
-	id, ok := s.X.(*ast.Ident)
-	if !ok || id.Name != msg || msg == "" || msg == "_" {
-		return "", false
-	}
-	return s.Sel.Name, true
-}
-
-var predicateRE = regexp.MustCompile(`^(Can[A-Z]\w*|HasPermission|ValidateAuthority|IsAuthority|GetAuthority)$`)
-
-func mentionsPredicate(n ast.Node) bool {
-	found := false
-	ast.Inspect(n, func(x ast.Node) bool {
-		if c, ok := x.(*ast.CallExpr); ok {
-			if s, ok := c.Fun.(*ast.SelectorExpr); ok && predicateRE.MatchString(s.Sel.Name) {
-				found = true
-			}
-		}
-		return !found
-	})
-	return found
-}
-
-func isErrNotNil(e ast.Expr, errName string) bool {
-	b, ok := e.(*ast.BinaryExpr)
-	if !ok || b.Op != token.NEQ {
-		return false
-	}
-	id, ok := b.X.(*ast.Ident)
-	return ok && id.Name == errName && isNil(b.Y)
-}
-
-// ---------------------------------------------------------------- 1. exchange MsgServer endpoints
-
-type Endpoint struct {
-	Name           string   `json:"name"`
-	File           string   `json:"file"`
-	Line           int      `json:"line"`
-	Guard          string   `json:"guard"` // Can | Authority | Reject | None | Unrecognised
-	Helper         string   `json:"helper"`
-	MarketField    string   `json:"market_field"`
-	CallerField    string   `json:"caller_field"`
-	AuthorityField string   `json:"authority_field"`
-	FirstCall      string   `json:"first_call"`
-	Index          int      `json:"index"`
-	Precall        bool     `json:"precall"`
-	Precalls       []string `json:"precalls"`
-	Text           string   `json:"text"`
-}
-
-func matchCanGuard(st ast.Stmt, recv, msg string) (helper, mf, cf string, ok bool) {
-	ifs, isIf := st.(*ast.IfStmt)
-	if !isIf || ifs.Init != nil || ifs.Else != nil || !isErrReturn(ifs.Body, 2) {
-		return
-	}
-	u, isU := ifs.Cond.(*ast.UnaryExpr)
-	if !isU || u.Op != token.NOT {
-		return
-	}
-	c, isC := u.X.(*ast.CallExpr)
-	if !isC || len(c.Args) != 3 {
-		return
-	}
-	s, isS := c.Fun.(*ast.SelectorExpr)
-	if !isS || rootIdent(s) != recv || !strings.HasPrefix(s.Sel.Name, "Can") {
-		return
-	}
-	if _, isId := c.Args[0].(*ast.Ident); !isId {
-		return
-	}
-	var ok1, ok2 bool
-	mf, ok1 = msgField(c.Args[1], msg)
-	cf, ok2 = msgField(c.Args[2], msg)
-	if !ok1 || !ok2 {
-		return
-	}
-	return s.Sel.Name, mf, cf, true
-}
-
-// matchValidateAuthority: if err := <recv…>.ValidateAuthority(<msg>.<F>); err != nil { return nil, <err> }
-func matchValidateAuthority(st ast.Stmt, recv, msg string) (field string, ok bool) {
-	ifs, isIf := st.(*ast.IfStmt)
-	if !isIf || ifs.Init == nil || ifs.Else != nil || !isErrReturn(ifs.Body, 2) {
-		return
-	}
-	as, isAs := ifs.Init.(*ast.AssignStmt)
-	if !isAs || len(as.Lhs) != 1 || len(as.Rhs) != 1 {
-		return
-	}
-	errId, isId := as.Lhs[0].(*ast.Ident)
-	if !isId || !isErrNotNil(ifs.Cond, errId.Name) {
-		return
-	}
-	c, isC := as.Rhs[0].(*ast.CallExpr)
-	if !isC || len(c.Args) != 1 {
-		return
-	}
-	s, isS := c.Fun.(*ast.SelectorExpr)
-	if !isS || s.Sel.Name != "ValidateAuthority" || rootIdent(s) != recv {
-		return
-	}
-	if f, isF := msgField(c.Args[0], msg); isF {
-		return f, true
-	}
-	// msg.GetAuthority()
-	if cc, isCC := c.Args[0].(*ast.CallExpr); isCC && len(cc.Args) == 0 {
-		if f, isF := msgField(cc.Fun, msg); isF && strings.HasPrefix(f, "Get") {
-			return strings.TrimPrefix(f, "Get"), true
-		}
-	}
-	return
-}
-
-func exchangeEndpoints() ([]Endpoint, error) {
-	path := filepath.Join(repoRoot, "x/exchange/keeper/msg_server.go")
-	f, err := parseFile(path)
-	if err != nil {
-		return nil, err
-	}
-	var out []Endpoint
-	for _, decl := range f.Decls {
-		d, ok := decl.(*ast.FuncDecl)
-		if !ok || recvTypeName(d) != "MsgServer" || d.Body == nil {
-			continue
-		}
-		msg, _, isH := handlerSig(d)
-		if !isH {
-			continue
-		}
-		recv := recvName(d)
-		ep := Endpoint{Name: d.Name.Name, File: relPath(path), Line: lineOf(d), Index: -1, Precalls: []string{}}
-		found := false
-		for i, st := range d.Body.List {
-			if !usesIdent(st, recv) {
-				continue // no use of the keeper at all: context unwrapping, address parsing, error returns
-			}
-			if h, mf, cf, okc := matchCanGuard(st, recv, msg); okc {
-				ep.Guard, ep.Helper, ep.MarketField, ep.CallerField, ep.Index = "Can", h, mf, cf, i
-				found = true
-				break
-			}
-			if af, oka := matchValidateAuthority(st, recv, msg); oka {
-				ep.Guard, ep.AuthorityField, ep.Index = "Authority", af, i
-				found = true
-				break
-			}
-			if mentionsPredicate(st) {
-				ep.Guard, ep.Index, ep.Text = "Unrecognised", i, src(st)
-				found = true
-				break
-			}
-			ep.Precalls = append(ep.Precalls, recvCalls(st, recv)...)
-		}
-		if !found {
-			n := len(d.Body.List)
-			if len(ep.Precalls) == 0 && n > 0 {
-				if r, isR := d.Body.List[n-1].(*ast.ReturnStmt); isR && len(r.Results) == 2 && isNil(r.Results[0]) && !isNil(r.Results[1]) && n == 1 {
-					ep.Guard, ep.Index = "Reject", 0
-				}
-			}
-			if ep.Guard == "" {
-				ep.Guard = "None"
-				if len(ep.Precalls) > 0 {
-					ep.FirstCall = ep.Precalls[0]
-				}
-			}
-		}
-		ep.Precall = len(ep.Precalls) > 0
-		out = append(out, ep)
-	}
-	return out, nil
-}
-
-// ---------------------------------------------------------------- 2. Can* helpers, HasPermission
-
-type CanHelper struct {
-	Name       string `json:"name"`
-	File       string `json:"file"`
-	Line       int    `json:"line"`
-	Permission string `json:"permission"` // Permission_xxx or "Unrecognised: <text>"
-}
-
-type FuncShape struct {
-	Name  string   `json:"name"`
-	File  string   `json:"file"`
-	Line  int      `json:"line"`
-	Sig   string   `json:"sig"`
-	Stmts []string `json:"stmts"`
-}
-
 func paramNames(ft *ast.FuncType) []string {
 	var out []string
 	if ft.Params == nil {
@@ -441,13 +239,732 @@ func paramTypes(ft *ast.FuncType) []string {
 	return out
 }
 
+// ---------------------------------------------------------------- scopes: bindings of locals, normalised text
+
+type binding struct {
+	expr ast.Expr // the bound right-hand side (nil when text is set)
+	idx  int      // which result of expr
+	n    int      // how many results expr has
+	text string   // fixed rendering (range variables)
+	val  string   // rendering of expr in the scope it was bound in (locals are inlined with the value they had then)
+	uses int
+	name string
+}
+
+type scope struct {
+	recv    string
+	params  map[string]string
+	env     map[string]*binding
+	all     *[]*binding
+	errOnly bool      // the function returns a single `error`: its non-nil return values print as $error
+	lookups *[]string // calls matching lookupRE seen while printing
+	depth   int
+}
+
+var lookupRE = regexp.MustCompile(`^(requirePaymentFromStore|getPaymentFromStore|getPaymentsForTargetAndSourceFromStore)$`)
+
+func isContextType(t string) bool { return t == "sdk.Context" || t == "context.Context" }
+
+// newScope: handler=true names the second parameter msg.
+func newScope(d *ast.FuncDecl, handler bool) *scope {
+	s := &scope{recv: recvName(d), params: map[string]string{}, env: map[string]*binding{}, all: &[]*binding{}, lookups: &[]string{}}
+	names, types := paramNames(d.Type), paramTypes(d.Type)
+	if len(names) == len(types) {
+		for i, n := range names {
+			if n == "_" {
+				continue
+			}
+			switch {
+			case isContextType(types[i]):
+				s.params[n] = "ctx"
+			case handler && i == 1:
+				s.params[n] = "msg"
+			default:
+				s.params[n] = "#" + strconv.Itoa(i)
+			}
+		}
+	}
+	if r := d.Type.Results; r != nil && len(r.List) == 1 && len(r.List[0].Names) <= 1 && src(r.List[0].Type) == "error" {
+		s.errOnly = true
+	}
+	return s
+}
+
+func (s *scope) child() *scope {
+	c := *s
+	c.env = make(map[string]*binding, len(s.env))
+	for k, v := range s.env {
+		c.env[k] = v
+	}
+	return &c
+}
+
+func (s *scope) set(name string, b *binding) {
+	if name == "_" {
+		return
+	}
+	if b.expr != nil && b.val == "" {
+		b.val = s.nt(b.expr)
+	}
+	b.name = name
+	s.env[name] = b
+	*s.all = append(*s.all, b)
+}
+
+// bind records `a, b := f(x)` / `a = e` / `var a = e` when every left-hand side is a plain identifier.
+func (s *scope) bind(st ast.Stmt) bool {
+	switch v := st.(type) {
+	case *ast.AssignStmt:
+		if v.Tok != token.DEFINE && v.Tok != token.ASSIGN {
+			return false
+		}
+		for _, l := range v.Lhs {
+			if _, ok := l.(*ast.Ident); !ok {
+				return false
+			}
+		}
+		if len(v.Rhs) == 1 {
+			val := s.nt(v.Rhs[0])
+			for i, l := range v.Lhs {
+				s.set(l.(*ast.Ident).Name, &binding{expr: v.Rhs[0], idx: i, n: len(v.Lhs), val: val})
+			}
+			return true
+		}
+		if len(v.Rhs) == len(v.Lhs) {
+			vals := make([]string, len(v.Rhs))
+			for i := range v.Rhs {
+				vals[i] = s.nt(v.Rhs[i])
+			}
+			for i, l := range v.Lhs {
+				s.set(l.(*ast.Ident).Name, &binding{expr: v.Rhs[i], idx: 0, n: 1, val: vals[i]})
+			}
+			return true
+		}
+	case *ast.DeclStmt:
+		gd, ok := v.Decl.(*ast.GenDecl)
+		if !ok || gd.Tok != token.VAR {
+			return false
+		}
+		for _, sp := range gd.Specs {
+			vs, ok := sp.(*ast.ValueSpec)
+			if !ok {
+				return false
+			}
+			if len(vs.Values) == 0 {
+				for _, n := range vs.Names { // zero value: nothing to inline
+					delete(s.env, n.Name)
+				}
+				continue
+			}
+			if len(vs.Values) != len(vs.Names) {
+				return false
+			}
+			for i, n := range vs.Names {
+				s.set(n.Name, &binding{expr: vs.Values[i], idx: 0, n: 1})
+			}
+		}
+		return true
+	}
+	return false
+}
+
+// bindingRHS returns the right-hand sides of a statement that bind() accepts.
+func bindingRHS(st ast.Stmt) []ast.Expr {
+	switch v := st.(type) {
+	case *ast.AssignStmt:
+		return v.Rhs
+	case *ast.DeclStmt:
+		var out []ast.Expr
+		if gd, ok := v.Decl.(*ast.GenDecl); ok {
+			for _, sp := range gd.Specs {
+				if vs, ok := sp.(*ast.ValueSpec); ok {
+					out = append(out, vs.Values...)
+				}
+			}
+		}
+		return out
+	}
+	return nil
+}
+
+// resolve follows identifiers through their bindings; for a multi-valued binding it returns the
+// bound call together with the binding (which says which result).
+func (s *scope) resolve(e ast.Expr) (ast.Expr, *binding) {
+	for i := 0; i < 20; i++ {
+		switch v := e.(type) {
+		case *ast.ParenExpr:
+			e = v.X
+			continue
+		case *ast.Ident:
+			if b, ok := s.env[v.Name]; ok && b.expr != nil {
+				if b.n == 1 {
+					e = b.expr
+					continue
+				}
+				return b.expr, b
+			}
+		}
+		break
+	}
+	return e, nil
+}
+
+// callOf: e (through bindings) is a result of a call; returns the call and which result.
+func (s *scope) callOf(e ast.Expr) (*ast.CallExpr, int, int) {
+	r, b := s.resolve(e)
+	c, ok := r.(*ast.CallExpr)
+	if !ok {
+		return nil, 0, 0
+	}
+	if b != nil {
+		return c, b.idx, b.n
+	}
+	return c, 0, 1
+}
+
+var getterRE = regexp.MustCompile(`^Get([A-Z]\w*)$`)
+
+// nt: normalised text of an expression.
+func (s *scope) nt(e ast.Expr) string {
+	if s.depth > 40 {
+		return "<deep>"
+	}
+	s.depth++
+	defer func() { s.depth-- }()
+	switch v := e.(type) {
+	case nil:
+		return ""
+	case *ast.Ident:
+		if v.Name == s.recv && s.recv != "" {
+			return "k"
+		}
+		if p, ok := s.params[v.Name]; ok {
+			if _, shadow := s.env[v.Name]; !shadow {
+				return p
+			}
+		}
+		if b, ok := s.env[v.Name]; ok {
+			b.uses++
+			if b.text != "" {
+				return b.text
+			}
+			// a context derived from the context is the context
+			if b.val == "sdk.UnwrapSDKContext(ctx)" {
+				return "ctx"
+			}
+			t := b.val
+			if b.n > 1 && b.idx > 0 {
+				return "$" + strconv.Itoa(b.idx+1) + "of(" + t + ")"
+			}
+			return t
+		}
+		return v.Name
+	case *ast.BasicLit:
+		return v.Value
+	case *ast.ParenExpr:
+		return "(" + s.nt(v.X) + ")"
+	case *ast.StarExpr:
+		return "*" + s.nt(v.X)
+	case *ast.UnaryExpr:
+		return v.Op.String() + s.nt(v.X)
+	case *ast.BinaryExpr:
+		return s.nt(v.X) + " " + v.Op.String() + " " + s.nt(v.Y)
+	case *ast.SelectorExpr:
+		return s.nt(v.X) + "." + v.Sel.Name
+	case *ast.IndexExpr:
+		return s.nt(v.X) + "[" + s.nt(v.Index) + "]"
+	case *ast.CallExpr:
+		if sel, ok := v.Fun.(*ast.SelectorExpr); ok && len(v.Args) == 0 {
+			if m := getterRE.FindStringSubmatch(sel.Sel.Name); m != nil {
+				base := s.nt(sel.X)
+				if base == "msg" || strings.HasPrefix(base, "msg.") || strings.HasPrefix(base, "#") {
+					return base + "." + m[1] // protobuf getter
+				}
+			}
+		}
+		var args []string
+		for _, a := range v.Args {
+			args = append(args, s.nt(a))
+		}
+		ell := ""
+		if v.Ellipsis.IsValid() {
+			ell = "..."
+		}
+		t := s.nt(v.Fun) + "(" + strings.Join(args, ", ") + ell + ")"
+		if sel, ok := v.Fun.(*ast.SelectorExpr); ok && lookupRE.MatchString(sel.Sel.Name) {
+			seen := false
+			for _, l := range *s.lookups {
+				if l == t {
+					seen = true
+				}
+			}
+			if !seen {
+				*s.lookups = append(*s.lookups, t)
+			}
+		}
+		return t
+	}
+	return src(e)
+}
+
+// elseIf unwraps `else if …` and `else { if … }`.
+func elseIf(e ast.Stmt) *ast.IfStmt {
+	switch v := e.(type) {
+	case *ast.IfStmt:
+		return v
+	case *ast.BlockStmt:
+		if len(v.List) == 1 {
+			if i, ok := v.List[0].(*ast.IfStmt); ok {
+				return i
+			}
+		}
+	}
+	return nil
+}
+
+// ntStmts: normalised statements of a block; binding statements only feed the scope.
+func (s *scope) ntStmts(list []ast.Stmt) []string {
+	var out []string
+	for _, st := range list {
+		out = append(out, s.ntStmt(st)...)
+	}
+	return out
+}
+
+func (s *scope) ntBlock(b *ast.BlockStmt) string {
+	if b == nil {
+		return "{ }"
+	}
+	c := s.child()
+	return "{ " + strings.Join(c.ntStmts(b.List), "; ") + " }"
+}
+
+func (s *scope) ntStmt(st ast.Stmt) []string {
+	switch v := st.(type) {
+	case *ast.AssignStmt, *ast.DeclStmt:
+		if s.bind(st) { // (binding renders the right-hand sides, which also feeds the side table of store lookups)
+			return nil
+		}
+		if a, ok := v.(*ast.AssignStmt); ok {
+			var l, r []string
+			for _, x := range a.Lhs {
+				l = append(l, s.nt(x))
+			}
+			for _, x := range a.Rhs {
+				r = append(r, s.nt(x))
+			}
+			return []string{strings.Join(l, ", ") + " " + a.Tok.String() + " " + strings.Join(r, ", ")}
+		}
+		return []string{src(st)}
+	case *ast.ExprStmt:
+		return []string{s.nt(v.X)}
+	case *ast.ReturnStmt:
+		if s.errOnly && len(v.Results) == 1 && !isNil(v.Results[0]) {
+			return []string{"return $error"}
+		}
+		var r []string
+		for _, x := range v.Results {
+			r = append(r, s.nt(x))
+		}
+		return []string{strings.TrimSpace("return " + strings.Join(r, ", "))}
+	case *ast.BlockStmt:
+		return []string{s.ntBlock(v)}
+	case *ast.IfStmt:
+		c := s.child()
+		t := "if "
+		if v.Init != nil && !c.bind(v.Init) {
+			t += strings.Join(c.ntStmt(v.Init), "; ") + "; "
+		}
+		t += c.nt(v.Cond) + " " + c.ntBlock(v.Body)
+		if v.Else != nil {
+			if ei := elseIf(v.Else); ei != nil {
+				t += " else " + strings.Join(c.ntStmt(ei), "; ")
+			} else if b, ok := v.Else.(*ast.BlockStmt); ok {
+				t += " else " + c.ntBlock(b)
+			}
+		}
+		return []string{t}
+	case *ast.RangeStmt:
+		c := s.child()
+		x := c.nt(v.X)
+		if id, ok := v.Key.(*ast.Ident); ok && v.Key != nil {
+			c.set(id.Name, &binding{text: "$key(" + x + ")"})
+		}
+		if id, ok := v.Value.(*ast.Ident); ok && v.Value != nil {
+			c.set(id.Name, &binding{text: "$elem(" + x + ")"})
+		}
+		return []string{"for range " + x + " " + c.ntBlock(v.Body)}
+	}
+	return []string{src(st)}
+}
+
+// unused: bindings nobody read (their right-hand sides would otherwise vanish from a fingerprint).
+func (s *scope) unused() []string {
+	var out []string
+	for _, b := range *s.all {
+		if b.uses == 0 && b.expr != nil && b.idx == 0 {
+			out = append(out, "$unused("+b.val+")")
+		}
+	}
+	return out
+}
+
+// ---------------------------------------------------------------- shape recognisers shared by the tables
+
+// isErrReturn: the block ends in `return nil, <non-nil>` (nres=2) / `return <non-nil>` (nres=1) and
+// does nothing with the keeper before that.
+func isErrReturn(b *ast.BlockStmt, nres int, recv string) bool {
+	if b == nil || len(b.List) == 0 {
+		return false
+	}
+	for _, st := range b.List[:len(b.List)-1] {
+		if usesIdent(st, recv) {
+			return false
+		}
+		hasRet := false
+		ast.Inspect(st, func(x ast.Node) bool {
+			if _, ok := x.(*ast.ReturnStmt); ok {
+				hasRet = true
+			}
+			return !hasRet
+		})
+		if hasRet {
+			return false
+		}
+	}
+	r, ok := b.List[len(b.List)-1].(*ast.ReturnStmt)
+	if !ok || len(r.Results) != nres {
+		return false
+	}
+	if nres == 2 {
+		return isNil(r.Results[0]) && !isNil(r.Results[1])
+	}
+	return !isNil(r.Results[0])
+}
+
+// compare: cond (through bindings) is `x != y`, `x == y`, `!strings.EqualFold(x, y)` or `strings.EqualFold(x, y)`.
+func (s *scope) compare(cond ast.Expr) (op token.Token, x, y ast.Expr, ok bool) {
+	e, _ := s.resolve(cond)
+	neg := false
+	for {
+		if p, isP := e.(*ast.ParenExpr); isP {
+			e = p.X
+			continue
+		}
+		if u, isU := e.(*ast.UnaryExpr); isU && u.Op == token.NOT {
+			neg = !neg
+			e, _ = s.resolve(u.X)
+			continue
+		}
+		break
+	}
+	switch v := e.(type) {
+	case *ast.BinaryExpr:
+		if v.Op == token.NEQ || v.Op == token.EQL {
+			op = v.Op
+			x, y = v.X, v.Y
+		} else {
+			return
+		}
+	case *ast.CallExpr:
+		if src(v.Fun) != "strings.EqualFold" || len(v.Args) != 2 {
+			return
+		}
+		op, x, y = token.EQL, v.Args[0], v.Args[1]
+	default:
+		return
+	}
+	if neg {
+		if op == token.EQL {
+			op = token.NEQ
+		} else {
+			op = token.EQL
+		}
+	}
+	return op, x, y, true
+}
+
+// errCheck: cond is `e != nil` where e is the LAST result of a call; returns the call.
+func (s *scope) errCheck(cond ast.Expr) *ast.CallExpr {
+	op, x, y, ok := s.compare(cond)
+	if !ok || op != token.NEQ {
+		return nil
+	}
+	if isNil(x) {
+		x, y = y, x
+	}
+	if !isNil(y) {
+		return nil
+	}
+	c, idx, n := s.callOf(x)
+	if c == nil || idx != n-1 {
+		return nil
+	}
+	return c
+}
+
+// negatedCall: cond is `!f(...)` (through bindings); returns the call.
+func (s *scope) negatedCall(cond ast.Expr) *ast.CallExpr {
+	e, _ := s.resolve(cond)
+	if p, ok := e.(*ast.ParenExpr); ok {
+		e = p.X
+	}
+	u, ok := e.(*ast.UnaryExpr)
+	if !ok || u.Op != token.NOT {
+		return nil
+	}
+	c, idx, n := s.callOf(u.X)
+	if c == nil || idx != 0 || n != 1 {
+		return nil
+	}
+	return c
+}
+
+var predicateRE = regexp.MustCompile(`^(Can[A-Z]\w*|HasPermission|ValidateAuthority|IsAuthority|GetAuthority)$`)
+var predicateTextRE = regexp.MustCompile(`\bk\.(Keeper\.)?(Can[A-Z]\w*|HasPermission|ValidateAuthority|IsAuthority|GetAuthority)\(|\bk\.(Keeper\.)?authority\b`)
+
+// recvMethod: the call is <receiver…>.<name>(…); returns name.
+func recvMethod(c *ast.CallExpr, recv string) string {
+	sel, ok := c.Fun.(*ast.SelectorExpr)
+	if !ok || rootIdent(sel) != recv || recv == "" {
+		return ""
+	}
+	ch := selChain(sel)
+	return strings.TrimPrefix(ch, "Keeper.")
+}
+
+// isPredicateBinding: `x := k.GetAuthority()`, `err := k.ValidateAuthority(…)`, `ok := k.CanX(…)`: reads of
+// the authority / of permissions that a later statement uses as its guard.
+func isPredicateBinding(st ast.Stmt, recv string) bool {
+	rhs := bindingRHS(st)
+	if len(rhs) != 1 {
+		return false
+	}
+	c, ok := rhs[0].(*ast.CallExpr)
+	if !ok {
+		if sel, isSel := rhs[0].(*ast.SelectorExpr); isSel && sel.Sel.Name == "authority" && rootIdent(sel) == recv {
+			return true
+		}
+		return false
+	}
+	return predicateRE.MatchString(recvMethod(c, recv)) && !strings.Contains(recvMethod(c, recv), ".")
+}
+
+// msgFieldOf: e normalises to msg.<Field>.
+func (s *scope) msgFieldOf(e ast.Expr) (string, bool) {
+	t := s.nt(e)
+	if strings.HasPrefix(t, "msg.") && !strings.ContainsAny(t[4:], ".( ") {
+		return t[4:], true
+	}
+	return "", false
+}
+
+// ---------------------------------------------------------------- 1. exchange MsgServer endpoints
+
+type Endpoint struct {
+	Name           string   `json:"name"`
+	File           string   `json:"file"`
+	Line           int      `json:"line"`
+	Guard          string   `json:"guard"` // Can | Authority | Reject | None | Unrecognised
+	Helper         string   `json:"helper"`
+	MarketField    string   `json:"market_field"`
+	CallerField    string   `json:"caller_field"`
+	AuthorityField string   `json:"authority_field"`
+	FirstCall      string   `json:"first_call"`
+	FirstCallText  string   `json:"first_call_text"`
+	Index          int      `json:"index"`
+	Precall        bool     `json:"precall"`
+	Precalls       []string `json:"precalls"`
+	Text           string   `json:"text"`
+}
+
+// matchCanGuard: if !k.CanXxx(ctx, msg.A, msg.B) { return nil, <error> }
+func matchCanGuard(s *scope, ifs *ast.IfStmt) (helper, mf, cf string, ok bool) {
+	if ifs.Else != nil || !isErrReturn(ifs.Body, 2, s.recv) {
+		return
+	}
+	c := s.negatedCall(ifs.Cond)
+	if c == nil || len(c.Args) != 3 {
+		return
+	}
+	name := recvMethod(c, s.recv)
+	if !strings.HasPrefix(name, "Can") || strings.Contains(name, ".") {
+		return
+	}
+	if s.nt(c.Args[0]) != "ctx" {
+		return
+	}
+	var ok1, ok2 bool
+	mf, ok1 = s.msgFieldOf(c.Args[1])
+	cf, ok2 = s.msgFieldOf(c.Args[2])
+	if !ok1 || !ok2 {
+		return
+	}
+	return name, mf, cf, true
+}
+
+// matchValidateAuthority: the error of k.ValidateAuthority(msg.F) is checked and returned.
+func matchValidateAuthority(s *scope, ifs *ast.IfStmt) (field string, ok bool) {
+	if ifs.Else != nil || !isErrReturn(ifs.Body, 2, s.recv) {
+		return
+	}
+	c := s.errCheck(ifs.Cond)
+	if c == nil || len(c.Args) != 1 || recvMethod(c, s.recv) != "ValidateAuthority" {
+		return
+	}
+	return s.msgFieldOf(c.Args[0])
+}
+
+// ifScope: the scope inside an if statement (its init bound); usable=false when the init is not a
+// plain binding or evaluates something other than a predicate on the keeper.
+func ifScope(s *scope, ifs *ast.IfStmt) (*scope, bool) {
+	c := s.child()
+	if ifs.Init == nil {
+		return c, true
+	}
+	if usesIdent(ifs.Init, s.recv) && !isPredicateBinding(ifs.Init, s.recv) {
+		return c, false
+	}
+	return c, c.bind(ifs.Init)
+}
+
+func exchangeEndpoints() ([]Endpoint, error) {
+	path := filepath.Join(repoRoot, "x/exchange/keeper/msg_server.go")
+	f, err := parseFile(path)
+	if err != nil {
+		return nil, err
+	}
+	var out []Endpoint
+	for _, decl := range f.Decls {
+		d, ok := decl.(*ast.FuncDecl)
+		if !ok || recvTypeName(d) != "MsgServer" || d.Body == nil {
+			continue
+		}
+		if _, _, isH := handlerSig(d); !isH {
+			continue
+		}
+		s := newScope(d, true)
+		ep := Endpoint{Name: d.Name.Name, File: relPath(path), Line: lineOf(d), Index: -1, Precalls: []string{}}
+		found := false
+		pending := ""
+		for i, st := range d.Body.List {
+			if isPredicateBinding(st, s.recv) && s.bind(st) {
+				pending = strings.Join(s.ntStmtNoBind(st), "; ")
+				continue
+			}
+			ifs, isIf := st.(*ast.IfStmt)
+			if !usesIdent(st, s.recv) && !(isIf && pending != "") {
+				s.bind(st) // context unwrapping, address parsing, error returns: no use of the keeper
+				continue
+			}
+			if isIf {
+				if c, usable := ifScope(s, ifs); usable {
+					if h, mf, cf, okc := matchCanGuard(c, ifs); okc {
+						ep.Guard, ep.Helper, ep.MarketField, ep.CallerField, ep.Index = "Can", h, mf, cf, i
+						found = true
+						break
+					}
+					if af, oka := matchValidateAuthority(c, ifs); oka {
+						ep.Guard, ep.AuthorityField, ep.Index = "Authority", af, i
+						found = true
+						break
+					}
+				}
+			}
+			if t := strings.Join(s.child().ntStmt(st), "; "); predicateTextRE.MatchString(t) {
+				ep.Guard, ep.Index, ep.Text = "Unrecognised", i, t
+				found = true
+				break
+			}
+			if ep.FirstCallText == "" {
+				ep.FirstCallText = firstRecvCallText(s.child(), st)
+			}
+			s.bind(st)
+			ep.Precalls = append(ep.Precalls, recvCalls(st, s.recv)...)
+		}
+		if !found && pending != "" {
+			ep.Guard, ep.Text = "Unrecognised", "permission/authority predicate evaluated but not used as a guard: "+pending
+			found = true
+		}
+		if !found {
+			n := len(d.Body.List)
+			if len(ep.Precalls) == 0 && n == 1 {
+				if r, isR := d.Body.List[0].(*ast.ReturnStmt); isR && len(r.Results) == 2 && isNil(r.Results[0]) && !isNil(r.Results[1]) {
+					ep.Guard, ep.Index = "Reject", 0
+				}
+			}
+			if ep.Guard == "" {
+				ep.Guard = "None"
+				if len(ep.Precalls) > 0 {
+					ep.FirstCall = ep.Precalls[0]
+				}
+			}
+		}
+		ep.Precall = len(ep.Precalls) > 0
+		out = append(out, ep)
+	}
+	return out, nil
+}
+
+// firstRecvCallText: the normalised text of the first call on the receiver in the statement (with
+// the statement's own if-init bound), e.g. k.Keeper.RejectPayment(ctx, sdk.AccAddressFromBech32(msg.Target), …).
+func firstRecvCallText(s *scope, st ast.Stmt) string {
+	var first *ast.CallExpr
+	ast.Inspect(st, func(x ast.Node) bool {
+		if first != nil {
+			return false
+		}
+		if c, ok := x.(*ast.CallExpr); ok {
+			if sel, ok := c.Fun.(*ast.SelectorExpr); ok && rootIdent(sel) == s.recv {
+				if _, isCall := sel.X.(*ast.CallExpr); !isCall {
+					first = c
+					return false
+				}
+			}
+		}
+		return true
+	})
+	if first == nil {
+		return ""
+	}
+	return s.nt(first)
+}
+
+// ntStmtNoBind renders a binding statement itself (diagnostics only).
+func (s *scope) ntStmtNoBind(st ast.Stmt) []string {
+	var r []string
+	for _, e := range bindingRHS(st) {
+		r = append(r, s.nt(e))
+	}
+	return r
+}
+
+// ---------------------------------------------------------------- 2. Can* helpers, HasPermission
+
+type CanHelper struct {
+	Name       string `json:"name"`
+	File       string `json:"file"`
+	Line       int    `json:"line"`
+	Permission string `json:"permission"` // Permission_xxx or "Unrecognised: <text>"
+}
+
+type FuncShape struct {
+	Name  string   `json:"name"`
+	File  string   `json:"file"`
+	Line  int      `json:"line"`
+	Sig   string   `json:"sig"`
+	Stmts []string `json:"stmts"`
+}
+
+// funcShape: the alpha-normalised statements of a small function (a structural fingerprint: local
+// and parameter names, hoisting into locals and error values do not matter).
 func funcShape(d *ast.FuncDecl, path string) FuncShape {
 	fs := FuncShape{Name: d.Name.Name, File: relPath(path), Line: lineOf(d), Stmts: []string{}}
-	fs.Sig = "(" + strings.Join(paramNames(d.Type), ", ") + ")"
+	fs.Sig = "(" + strings.Join(paramTypes(d.Type), ", ") + ")"
 	if d.Body != nil {
-		for _, st := range d.Body.List {
-			fs.Stmts = append(fs.Stmts, src(st))
-		}
+		s := newScope(d, false)
+		fs.Stmts = append(fs.Stmts, s.ntStmts(d.Body.List)...)
+		fs.Stmts = append(fs.Stmts, s.unused()...)
 	}
 	return fs
 }
@@ -484,25 +1001,14 @@ func marketHelpers() (helpers []CanHelper, hasPerm, storeHasPerm FuncShape, err 
 		if len(pt) != 3 || pt[2] != "string" {
 			continue // CanCreateAsk/Bid/Commitment take an sdk.AccAddress: attribute checks, not permission helpers
 		}
-		pn := paramNames(d.Type)
-		recv := recvName(d)
+		s := newScope(d, false)
 		h := CanHelper{Name: d.Name.Name, File: relPath(path), Line: lineOf(d)}
-		h.Permission = "Unrecognised: " + src(d.Body)
-		if len(d.Body.List) == 1 {
-			if r, isR := d.Body.List[0].(*ast.ReturnStmt); isR && len(r.Results) == 1 {
-				if c, isC := r.Results[0].(*ast.CallExpr); isC && len(c.Args) == 4 {
-					s, isS := c.Fun.(*ast.SelectorExpr)
-					a0, ok0 := c.Args[0].(*ast.Ident)
-					a1, ok1 := c.Args[1].(*ast.Ident)
-					a2, ok2 := c.Args[2].(*ast.Ident)
-					p, ok3 := c.Args[3].(*ast.SelectorExpr)
-					if isS && s.Sel.Name == "HasPermission" && rootIdent(s) == recv && selChain(s) == "HasPermission" &&
-						ok0 && ok1 && ok2 && ok3 && len(pn) == 3 &&
-						a0.Name == pn[0] && a1.Name == pn[1] && a2.Name == pn[2] &&
-						rootIdent(p) == "exchange" && strings.HasPrefix(p.Sel.Name, "Permission_") {
-						h.Permission = p.Sel.Name
-					}
-				}
+		stmts := s.child().ntStmts(d.Body.List)
+		h.Permission = "Unrecognised: " + strings.Join(stmts, "; ")
+		// the normalised body is exactly: return k.HasPermission(ctx, #1, #2, exchange.Permission_X)
+		if len(stmts) == 1 {
+			if m := regexp.MustCompile(`^return k\.HasPermission\(ctx, #1, #2, exchange\.(Permission_\w+)\)$`).FindStringSubmatch(stmts[0]); m != nil {
+				h.Permission = m[1]
 			}
 		}
 		helpers = append(helpers, h)
@@ -551,51 +1057,57 @@ func cancelOrderGuard() (CancelGuard, error) {
 		if !ok || d.Body == nil || recvTypeName(d) != "Keeper" || d.Name.Name != "CancelOrder" {
 			continue
 		}
-		recv := recvName(d)
-		pn := paramNames(d.Type)
+		s := newScope(d, false)
 		g.Line = lineOf(d)
 		g.Text = "no `if signer != owner && !k.Can…(ctx, order.GetMarketID(), signer)` statement in CancelOrder"
-		assigns := map[string]string{}
 		for i, st := range d.Body.List {
-			if as, isAs := st.(*ast.AssignStmt); isAs && len(as.Lhs) == 1 && len(as.Rhs) == 1 {
-				if id, isId := as.Lhs[0].(*ast.Ident); isId {
-					assigns[id.Name] = src(as.Rhs[0])
-				}
-			}
 			ifs, isIf := st.(*ast.IfStmt)
-			if isIf && mentionsPredicate(ifs.Cond) {
-				g.Index = i
-				g.Text = src(st)
-				b, isB := ifs.Cond.(*ast.BinaryExpr)
-				if !isB || b.Op != token.LAND || ifs.Init != nil || ifs.Else != nil || !isErrReturn(ifs.Body, 1) {
+			if isIf {
+				c, usable := ifScope(s, ifs)
+				text := strings.Join(s.child().ntStmt(st), "; ")
+				if predicateTextRE.MatchString(text) {
+					g.Index = i
+					g.Text = text
+					if !usable || ifs.Else != nil || !isErrReturn(ifs.Body, 1, s.recv) {
+						return g, nil
+					}
+					cond, _ := c.resolve(ifs.Cond)
+					b, isB := cond.(*ast.BinaryExpr)
+					if !isB || b.Op != token.LAND {
+						return g, nil
+					}
+					// one conjunct is the owner comparison, the other the negated helper call
+					cmpE, callE := b.X, b.Y
+					if c.negatedCall(cmpE) != nil {
+						cmpE, callE = callE, cmpE
+					}
+					op, x, y, okc := c.compare(cmpE)
+					call := c.negatedCall(callE)
+					if !okc || op != token.NEQ || call == nil || len(call.Args) != 3 {
+						return g, nil
+					}
+					helper := recvMethod(call, s.recv)
+					if helper == "" || strings.Contains(helper, ".") || c.nt(call.Args[0]) != "ctx" {
+						return g, nil
+					}
+					xs, ys := c.nt(x), c.nt(y)
+					if ys == "#2" { // the signer is the third parameter, whichever side it is on
+						xs, ys = ys, xs
+					}
+					g.Signer, g.Owner, g.OwnerSrc = xs, ys, ys
+					g.Helper, g.MarketSrc, g.Caller = helper, c.nt(call.Args[1]), c.nt(call.Args[2])
+					if g.Signer == "#2" && g.Caller == "#2" {
+						g.Kind = "OwnerOr"
+						g.Text = ""
+					}
+					g.PreWrite = anyWrite(g.Precalls)
 					return g, nil
 				}
-				l, isL := b.X.(*ast.BinaryExpr)
-				u, isU := b.Y.(*ast.UnaryExpr)
-				if !isL || l.Op != token.NEQ || !isU || u.Op != token.NOT {
-					return g, nil
-				}
-				c, isC := u.X.(*ast.CallExpr)
-				if !isC || len(c.Args) != 3 {
-					return g, nil
-				}
-				s, isS := c.Fun.(*ast.SelectorExpr)
-				if !isS || rootIdent(s) != recv {
-					return g, nil
-				}
-				g.Signer, g.Owner = src(l.X), src(l.Y)
-				g.Helper, g.MarketSrc, g.Caller = s.Sel.Name, src(c.Args[1]), src(c.Args[2])
-				g.OwnerSrc = assigns[g.Owner]
-				if len(pn) == 3 && g.Signer == pn[2] && g.Caller == pn[2] {
-					g.Kind = "OwnerOr"
-					g.Text = ""
-				}
-				g.PreWrite = anyWrite(g.Precalls)
-				return g, nil
 			}
-			if usesIdent(st, recv) {
-				g.Precalls = append(g.Precalls, recvCalls(st, recv)...)
+			if usesIdent(st, s.recv) && !isPredicateBinding(st, s.recv) {
+				g.Precalls = append(g.Precalls, recvCalls(st, s.recv)...)
 			}
+			s.bind(st)
 		}
 		return g, nil
 	}
@@ -607,8 +1119,8 @@ type PaymentFunc struct {
 	File    string     `json:"file"`
 	Line    int        `json:"line"`
 	Sig     string     `json:"sig"`
-	Conds   [][]string `json:"conds"`   // top-level `if A != B { return err }`
-	Lookups []string   `json:"lookups"` // calls that read payments from the store
+	Conds   [][]string `json:"conds"`   // top-level `if A != B { return err }`, operands normalised and sorted
+	Lookups []string   `json:"lookups"` // calls that read payments from the store, normalised
 }
 
 func paymentFuncs() ([]PaymentFunc, error) {
@@ -618,7 +1130,6 @@ func paymentFuncs() ([]PaymentFunc, error) {
 		return nil, err
 	}
 	want := map[string]bool{"AcceptPayment": true, "RejectPayment": true, "RejectPayments": true, "CancelPayments": true, "UpdatePaymentTarget": true}
-	lookupRE := regexp.MustCompile(`^(requirePaymentFromStore|getPaymentFromStore|getPaymentsForTargetAndSourceFromStore)$`)
 	var out []PaymentFunc
 	for _, decl := range f.Decls {
 		d, ok := decl.(*ast.FuncDecl)
@@ -626,22 +1137,28 @@ func paymentFuncs() ([]PaymentFunc, error) {
 			continue
 		}
 		pf := PaymentFunc{Func: d.Name.Name, File: relPath(path), Line: lineOf(d), Conds: [][]string{}, Lookups: []string{}}
-		pf.Sig = "(" + strings.Join(paramNames(d.Type), ", ") + ")"
+		pf.Sig = "(" + strings.Join(paramTypes(d.Type), ", ") + ")"
+		// pass 1: print the whole body, collecting the store lookups with their normalised arguments
+		s1 := newScope(d, false)
+		s1.ntStmts(d.Body.List)
+		pf.Lookups = append(pf.Lookups, *s1.lookups...)
+		// pass 2: the top-level identity comparisons
+		s := newScope(d, false)
 		for _, st := range d.Body.List {
-			if ifs, isIf := st.(*ast.IfStmt); isIf && ifs.Init == nil && ifs.Else == nil && isErrReturn(ifs.Body, 1) {
-				if b, isB := ifs.Cond.(*ast.BinaryExpr); isB && b.Op == token.NEQ {
-					pf.Conds = append(pf.Conds, []string{src(b.X), src(b.Y)})
+			if ifs, isIf := st.(*ast.IfStmt); isIf && ifs.Else == nil && isErrReturn(ifs.Body, 1, "") {
+				c := s.child()
+				if ifs.Init == nil || c.bind(ifs.Init) {
+					if op, x, y, okc := c.compare(ifs.Cond); okc && op == token.NEQ && !isNil(x) && !isNil(y) {
+						a, b := c.nt(x), c.nt(y)
+						if b < a {
+							a, b = b, a
+						}
+						pf.Conds = append(pf.Conds, []string{a, b})
+					}
 				}
 			}
+			s.bind(st)
 		}
-		ast.Inspect(d.Body, func(x ast.Node) bool {
-			if c, isC := x.(*ast.CallExpr); isC {
-				if s, isS := c.Fun.(*ast.SelectorExpr); isS && lookupRE.MatchString(s.Sel.Name) {
-					pf.Lookups = append(pf.Lookups, src(c))
-				}
-			}
-			return true
-		})
 		delete(want, d.Name.Name)
 		out = append(out, pf)
 	}
@@ -763,152 +1280,129 @@ func authorityRequests(moduleDir string) (map[string]string, error) {
 	return out, err
 }
 
-// isField: <msg>.Authority or <msg>.GetAuthority()
-func isAuthorityField(e ast.Expr, msg string) bool {
-	if f, ok := msgField(e, msg); ok && f == "Authority" {
-		return true
-	}
-	if c, ok := e.(*ast.CallExpr); ok && len(c.Args) == 0 {
-		if f, ok := msgField(c.Fun, msg); ok && f == "GetAuthority" {
-			return true
-		}
-	}
-	return false
-}
+func (s *scope) isAuthorityField(e ast.Expr) bool { return s.nt(e) == "msg.Authority" }
 
-// isKeeperAuthority: <recv…>.GetAuthority() or <recv…>.authority
-func isKeeperAuthority(e ast.Expr, recv string) (string, bool) {
-	if c, ok := e.(*ast.CallExpr); ok && len(c.Args) == 0 {
-		if s, ok := c.Fun.(*ast.SelectorExpr); ok && s.Sel.Name == "GetAuthority" && rootIdent(s) == recv {
-			ch := selChain(s)
-			if ch == "GetAuthority" || ch == "Keeper.GetAuthority" {
-				return "GetAuthority", true
-			}
-		}
-		return "", false
-	}
-	if s, ok := e.(*ast.SelectorExpr); ok && s.Sel.Name == "authority" && rootIdent(s) == recv {
-		ch := selChain(s)
-		if ch == "authority" || ch == "Keeper.authority" {
-			return "authority", true
-		}
+// keeperAuthority: e (through bindings) is the keeper's configured authority; returns how it is read.
+func (s *scope) keeperAuthority(e ast.Expr) (string, bool) {
+	switch s.nt(e) {
+	case "k.GetAuthority()", "k.Keeper.GetAuthority()":
+		return "GetAuthority", true
+	case "k.authority", "k.Keeper.authority":
+		return "authority", true
 	}
 	return "", false
 }
 
-// splitFieldCompare: b is `<field> op X` or `X op <field>`; returns X.
-func splitFieldCompare(b *ast.BinaryExpr, msg string) (ast.Expr, bool) {
-	if isAuthorityField(b.X, msg) {
-		return b.Y, true
+func (s *scope) splitFieldCompare(x, y ast.Expr) (ast.Expr, bool) {
+	if s.isAuthorityField(x) {
+		return y, true
 	}
-	if isAuthorityField(b.Y, msg) {
-		return b.X, true
+	if s.isAuthorityField(y) {
+		return x, true
 	}
 	return nil, false
 }
 
-func usesAuthorityField(n ast.Node, msg string) bool {
-	found := false
-	ast.Inspect(n, func(x ast.Node) bool {
-		if e, ok := x.(ast.Expr); ok && isAuthorityField(e, msg) {
-			found = true
+// returnsSuccess: some return in the block has a nil error.
+func returnsSuccess(b *ast.BlockStmt) bool {
+	bad := false
+	ast.Inspect(b, func(y ast.Node) bool {
+		if r, isR := y.(*ast.ReturnStmt); isR && len(r.Results) == 2 && isNil(r.Results[1]) {
+			bad = true
 		}
-		return !found
+		return !bad
 	})
-	return found
+	return bad
 }
 
-func matchGovGuard(st ast.Stmt, recv, msg string) (guard, detail string, ok bool) {
-	if f, okv := matchValidateAuthority(st, recv, msg); okv {
+func matchGovGuard(s *scope, ifs *ast.IfStmt) (guard, detail string, ok bool) {
+	if f, okv := matchValidateAuthority(s, ifs); okv {
 		if f == "Authority" {
 			return "Authority", "ValidateAuthority", true
 		}
 		return
 	}
-	ifs, isIf := st.(*ast.IfStmt)
-	if !isIf || ifs.Init != nil {
-		return
-	}
-	b, isB := ifs.Cond.(*ast.BinaryExpr)
-	if !isB {
-		return
-	}
-	switch b.Op {
-	case token.NEQ:
-		if ifs.Else != nil || !isErrReturn(ifs.Body, 2) {
-			return
-		}
-		x, okx := splitFieldCompare(b, msg)
-		if !okx {
-			return
-		}
-		if via, isA := isKeeperAuthority(x, recv); isA {
-			return "Authority", via, true
-		}
-		return "Other", src(x), true
-	case token.LAND:
-		if ifs.Else != nil || !isErrReturn(ifs.Body, 2) {
-			return
-		}
-		l, isL := b.X.(*ast.BinaryExpr)
-		r, isR := b.Y.(*ast.BinaryExpr)
-		if !isL || !isR || l.Op != token.NEQ || r.Op != token.NEQ {
-			return
-		}
-		lx, okl := splitFieldCompare(l, msg)
-		rx, okr := splitFieldCompare(r, msg)
-		if !okl || !okr {
-			return
-		}
-		_, la := isKeeperAuthority(lx, recv)
-		_, ra := isKeeperAuthority(rx, recv)
-		switch {
-		case la && !ra:
-			return "AuthorityOr", src(rx), true
-		case ra && !la:
-			return "AuthorityOr", src(lx), true
-		}
-		return
-	case token.EQL:
-		x, okx := splitFieldCompare(b, msg)
-		if !okx {
-			return
-		}
-		if _, isA := isKeeperAuthority(x, recv); !isA {
-			return
-		}
-		e2, isE2 := ifs.Else.(*ast.IfStmt)
-		if !isE2 || e2.Init == nil || e2.Else != nil || !isErrReturn(e2.Body, 2) {
-			return
-		}
-		as, isAs := e2.Init.(*ast.AssignStmt)
-		if !isAs || len(as.Lhs) != 1 || len(as.Rhs) != 1 {
-			return
-		}
-		errId, isId := as.Lhs[0].(*ast.Ident)
-		if !isId || !isErrNotNil(e2.Cond, errId.Name) {
-			return
-		}
-		c, isC := as.Rhs[0].(*ast.CallExpr)
-		if !isC || !usesAuthorityField(c, msg) {
-			return
-		}
-		// the authority branch itself must not return success
-		for _, s := range ifs.Body.List {
-			bad := false
-			ast.Inspect(s, func(y ast.Node) bool {
-				if r, isR := y.(*ast.ReturnStmt); isR && len(r.Results) == 2 && isNil(r.Results[1]) {
-					bad = true
-				}
-				return !bad
-			})
-			if bad {
+	// `a != b && c != d` (through bindings)
+	if cond, _ := s.resolve(ifs.Cond); cond != nil {
+		if b, isB := cond.(*ast.BinaryExpr); isB && b.Op == token.LAND {
+			if ifs.Else != nil || !isErrReturn(ifs.Body, 2, s.recv) {
 				return
 			}
+			op1, x1, y1, ok1 := s.compare(b.X)
+			op2, x2, y2, ok2 := s.compare(b.Y)
+			if !ok1 || !ok2 || op1 != token.NEQ || op2 != token.NEQ {
+				return
+			}
+			lx, okl := s.splitFieldCompare(x1, y1)
+			rx, okr := s.splitFieldCompare(x2, y2)
+			if !okl || !okr {
+				return
+			}
+			_, la := s.keeperAuthority(lx)
+			_, ra := s.keeperAuthority(rx)
+			switch {
+			case la && !ra:
+				return "AuthorityOr", s.nt(rx), true
+			case ra && !la:
+				return "AuthorityOr", s.nt(lx), true
+			}
+			return
 		}
-		return "AuthorityOr", src(c), true
+	}
+	op, x, y, okc := s.compare(ifs.Cond)
+	if !okc {
+		return
+	}
+	other, okf := s.splitFieldCompare(x, y)
+	if !okf {
+		return
+	}
+	switch op {
+	case token.NEQ:
+		if ifs.Else != nil || !isErrReturn(ifs.Body, 2, s.recv) {
+			return
+		}
+		if via, isA := s.keeperAuthority(other); isA {
+			return "Authority", via, true
+		}
+		return "Other", s.nt(other), true
+	case token.EQL:
+		if _, isA := s.keeperAuthority(other); !isA {
+			return
+		}
+		e2 := elseIf(ifs.Else)
+		if e2 == nil || e2.Else != nil || !isErrReturn(e2.Body, 2, s.recv) || returnsSuccess(ifs.Body) {
+			return
+		}
+		c2 := s.child()
+		if e2.Init != nil && !c2.bind(e2.Init) {
+			return
+		}
+		c := c2.errCheck(e2.Cond)
+		if c == nil {
+			return
+		}
+		t := c2.nt(c)
+		if !strings.Contains(t, "msg.Authority") {
+			return
+		}
+		return "AuthorityOr", t, true
 	}
 	return
+}
+
+func usesAuthorityField(n ast.Node, msg string) bool {
+	found := false
+	ast.Inspect(n, func(x ast.Node) bool {
+		if sel, ok := x.(*ast.SelectorExpr); ok {
+			if id, isId := sel.X.(*ast.Ident); isId && id.Name == msg && msg != "" && msg != "_" &&
+				(sel.Sel.Name == "Authority" || sel.Sel.Name == "GetAuthority") {
+				found = true
+			}
+		}
+		return !found
+	})
+	return found
 }
 
 func govEndpoints() ([]GovRow, []FuncShape, error) {
@@ -962,12 +1456,6 @@ func govEndpoints() ([]GovRow, []FuncShape, error) {
 				if recvTypeName(d) == "Keeper" && (d.Name.Name == "ValidateAuthority" || d.Name.Name == "IsAuthority" || d.Name.Name == "GetAuthority") {
 					fs := funcShape(d, p)
 					fs.Name = module + "." + d.Name.Name
-					// normalise the receiver name away
-					if r := recvName(d); r != "" && r != "k" {
-						for i := range fs.Stmts {
-							fs.Stmts[i] = regexp.MustCompile(`\b`+regexp.QuoteMeta(r)+`\.`).ReplaceAllString(fs.Stmts[i], "k.")
-						}
-					}
 					validators = append(validators, fs)
 					continue
 				}
@@ -979,20 +1467,33 @@ func govEndpoints() ([]GovRow, []FuncShape, error) {
 					continue
 				}
 				seen[req] = true
-				recv := recvName(d)
+				s := newScope(d, true)
 				row := GovRow{Module: module, Endpoint: d.Name.Name, Request: req, File: relPath(p), Line: lineOf(d), Index: -1, Precalls: []string{}}
+				pending := ""
 				for i, st := range d.Body.List {
-					if g, det, okg := matchGovGuard(st, recv, msg); okg {
-						row.Guard, row.Detail, row.Index = g, det, i
+					if isPredicateBinding(st, s.recv) && s.bind(st) {
+						pending = strings.Join(s.ntStmtNoBind(st), "; ")
+						continue
+					}
+					if ifs, isIf := st.(*ast.IfStmt); isIf {
+						if c, usable := ifScope(s, ifs); usable {
+							if g, det, okg := matchGovGuard(c, ifs); okg {
+								row.Guard, row.Detail, row.Index = g, det, i
+								break
+							}
+						}
+					}
+					if usesAuthorityField(st, msg) || (usesIdent(st, s.recv) && predicateTextRE.MatchString(strings.Join(s.child().ntStmt(st), "; "))) {
+						row.Guard, row.Detail, row.Index = "Unrecognised", strings.Join(s.child().ntStmt(st), "; "), i
 						break
 					}
-					if usesAuthorityField(st, msg) || (usesIdent(st, recv) && mentionsPredicate(st)) {
-						row.Guard, row.Detail, row.Index = "Unrecognised", src(st), i
-						break
+					if usesIdent(st, s.recv) {
+						row.Precalls = append(row.Precalls, recvCalls(st, s.recv)...)
 					}
-					if usesIdent(st, recv) {
-						row.Precalls = append(row.Precalls, recvCalls(st, recv)...)
-					}
+					s.bind(st)
+				}
+				if row.Guard == "" && pending != "" {
+					row.Guard, row.Detail = "Unrecognised", "authority predicate evaluated but not used as a guard: "+pending
 				}
 				if row.Guard == "" {
 					n := len(d.Body.List)
